@@ -492,7 +492,11 @@ func (st *Stream) Step(l Letter) (viol []Violation) {
 		})
 	}
 	if l.Big != nil && pan == "" {
-		if l.Big.N >= 65537 && err == nil {
+		sub := strings.HasPrefix(l.Big.Kind, "sub-") // 32-bit ids: in domain far beyond 65,536
+		if sub && err != nil {
+			add("C08", "a batch with %d %s (32-bit ids, within the id width) was refused: %v", l.Big.N, l.Big.Kind, err)
+		}
+		if l.Big.N >= 65537 && err == nil && !sub {
 			add("C08", "a batch with %d %s (more than 16-bit ids allow) was accepted instead of refused with an error", l.Big.N, l.Big.Kind)
 		}
 		if l.Big.N <= 65535 && err != nil {
